@@ -154,6 +154,23 @@ func appCases(args []string) {
 			id++
 			w.Emit(appCase{ID: id, Mode: "c10", In: tr.Ints(big), Display: false, Record: true, Chunk: 4096, Seed: rng.Int63(), Cls: "200 kB"})
 		}
+		// a live source with a non-zero end-of-file tolerance that drops out for a moment twice (end-of-file, read time-out)
+		for k, cls := range []string{"transient-eof", "transient-timeout"} {
+			var in []byte
+			for j := 0; j < 9; j++ {
+				in = append(in, gen.Frame(rng, gen.TypeClass(rng, j+k), 10+rng.Intn(80), 0)...)
+			}
+			id++
+			w.Emit(appCase{ID: id, Mode: "c10", In: tr.Ints(in), Display: k == 1, Record: k == 0, Chunk: 0, Seed: rng.Int63(), Cls: cls})
+		}
+		// a frame whose CRC is wrong in exactly one of its three bytes (each in turn), between valid frames
+		for k := 0; k < 3; k++ {
+			a, b := gen.Frame(rng, 1005, 19, 0), gen.Frame(rng, 1230, 6, 0)
+			bad := gen.Frame(rng, gen.TypeClass(rng, k+2), 8+rng.Intn(40), 0)
+			bad[len(bad)-3+k] ^= byte(1 << uint(rng.Intn(8)))
+			id++
+			w.Emit(appCase{ID: id, Mode: "c10", In: tr.Ints(gen.Cat(a, bad, b)), Display: false, Record: k == 1, Chunk: 0, Seed: rng.Int63(), Cls: fmt.Sprintf("crc byte %d wrong", k)})
+		}
 		// a consumer of the output that stalls for several seconds on its first write while further frames follow
 		{
 			in := gen.Cat(gen.Junk(rng, 10, 1), gen.Frame(rng, 1005, 19, 0), gen.Frame(rng, 1006, 21, 0), gen.Frame(rng, 1230, 6, 0), gen.Frame(rng, 1005, 19, 0))
